@@ -576,6 +576,26 @@ let make_m1 (params : string list) : machine =
             st := s';
             (match x with XOk -> rk := List.filter (fun w -> int_of_z w <= int_of_string v) !rk | _ -> ());
             show_out x
+        | [ "dvfrom"; v ] ->
+            (* MutableTree.DeleteVersionsFrom(v) with the loaded version below v: the versions >= v
+               go, the tree object stays as it is. MTree has no such operation: the forest is
+               filtered here, and the index follows FastLife's rules for a rollback (label dropped
+               when something was deleted, rebuilt for the new latest version when enabled) *)
+            let vz = int_of_string v in
+            let loaded = int_of_z !st.version in
+            if loaded >= vz || vz < 1 then raise Out_of_contract
+            else begin
+              let had = List.exists (fun (w, _) -> int_of_z w >= vz) !st.forest in
+              st := { !st with forest = List.filter (fun (w, _) -> int_of_z w < vz) !st.forest };
+              rk := List.filter (fun w -> int_of_z w < vz) !rk;
+              let f1 = { !fs with ms = !st } in
+              let f2 = (if had && f1.mlabel <> None then { f1 with dlabel = None; mlabel = None } else f1) in
+              (* enable_if_needed, through an operation that does nothing else: a load of the
+                 version that is already loaded *)
+              fs := f2;
+              (if not f2.skipf then ignore (fdo (FLoad !st.version)));
+              "ok"
+            end
         | [ "dvreload"; v; mode ] ->
             (* DeleteVersionsFrom(v+1) then reload: the rollback to v (then a reopen, which loads
                the latest version = v) *)
